@@ -538,7 +538,80 @@ fn gen_directed(rng: &mut Rng, cfg: &GenCfg, ids: &mut Ids) -> Scenario {
   }
 }
 
+/// Swarm mode "huge line" (4 in 1000 scenarios): one generated line longer
+/// than 64 KiB but with fewer than 64 Ki characters, mapped at columns beyond
+/// byte 65 535 — sizes at which 16-bit tables, block buffers and the like
+/// change behaviour.
+fn gen_huge_line(rng: &mut Rng, ids: &mut Ids) -> Scenario {
+  let n = 21_900 + rng.usize_below(2_200);
+  let unit = *rng.pick(&["中", "文", "世"]);
+  let mut text = String::with_capacity(n * 3 + 8);
+  if rng.chance(300) {
+    text.push_str("ab\n");
+  }
+  for _ in 0..n {
+    text.push_str(unit);
+  }
+  if rng.chance(500) {
+    text.push_str(";\n");
+  }
+  let line = if text.starts_with("ab\n") { 2 } else { 1 };
+  let mut cols: Vec<u32> = vec![0, 21_000 + rng.below(800) as u32, 21_850 + rng.below(40) as u32, (n - 1) as u32];
+  cols.sort_unstable();
+  cols.dedup();
+  let segs: Vec<crate::model::Seg> = cols
+    .iter()
+    .map(|c| crate::model::Seg {
+      line,
+      col: *c,
+      orig: Some((0, 1, *c % 50, None)),
+    })
+    .collect();
+  let leaf = TreeSpec::SourceMap {
+    text,
+    name: "big-line.js".into(),
+    map: crate::spec::MapSpec {
+      mappings: crate::model::encode_mappings(&segs),
+      sources: vec!["big-line.js".into()],
+      sources_content: vec![],
+      names: vec![],
+      file: None,
+      source_root: None,
+      debug_id: None,
+    },
+    inner: None,
+  };
+  let root = if rng.chance(500) {
+    TreeSpec::Cached {
+      inner: Box::new(leaf),
+      cache_id: ids.cache(),
+    }
+  } else {
+    leaf
+  };
+  let s = OpKind::Stream {
+    columns: true,
+    abort_at: None,
+  };
+  Scenario {
+    family: "huge line".into(),
+    objects: vec![root],
+    threads: vec![
+      vec![Op { obj: 0, kind: s.clone() }, Op { obj: 0, kind: s }],
+      vec![Op {
+        obj: 0,
+        kind: OpKind::Map { columns: true },
+      }],
+    ],
+  }
+}
+
 pub fn gen_scenario(rng: &mut Rng) -> Scenario {
+  // (not under Miri: interpreting 64 KiB of text costs minutes per run)
+  let huge = rng.chance(4);
+  if huge && !cfg!(miri) {
+    return gen_huge_line(rng, &mut Ids::new());
+  }
   let ascii = rng.chance(700);
   let mut cfg = GenCfg::small(ascii);
   let deep = crate::rng::deep();
